@@ -319,6 +319,36 @@ theorem dsAdd_ok (h : Heap) (d : DS) (p : Path) (k : Kind) (o : Nat) (u : Option
                   (fun c hc => ⟨hrect c hc, ok.wff c hc, fun hf => (by cases hf)⟩) ok.nodup
                 exact ⟨(rectFields_iff fs).mpr (fun c hc => (a1 c hc).1), ⟨a2, fun c hc => (a1 c hc).2.1⟩, rfl⟩
 
+/-- **`dset.add_collection(name)`** at the top level keeps the table rectangular (an empty collection
+*inside* a collection is the one shape the invariant excludes: `Collection.__len__` cannot tell its rows) -/
+theorem dsAddColl_ok (h : Heap) (d : DS) (nm : String) (l : Nat) (d' : DS)
+    (hok : dsAddColl d [nm] l = .ok d') (hd : Rect h d) (ok : DSOK d) :
+    Rect h d' ∧ DSOK d' ∧ d'.numObs = d.numObs := by
+  simp only [dsAddColl, List.reverse_cons, List.reverse_nil, List.nil_append, List.isEmpty_nil, Bool.true_and,
+    Bool.not_true, Bool.false_and] at hok
+  split at hok
+  · simp at hok
+  · rename_i hex
+    simp only [Bool.false_eq_true, if_false, addAt] at hok
+    have hnone : getField d.fields nm = none := by
+      cases hg : getField d.fields nm with
+      | none => rfl
+      | some x => simp [hg] at hex
+    simp only [Field.name, hnone, Except.ok.injEq] at hok; subst hok
+    have hrect := (rectFields_iff d.fields).mp hd
+    refine ⟨(rectFields_iff _).mpr ?_, ⟨?_, ?_⟩, rfl⟩
+    · intro c hc
+      rcases List.mem_append.mp hc with hc | hc
+      · exact hrect c hc
+      · simp at hc; subst hc; simp [RectField, RectField.RectFields]
+    · simp only [names, List.map_append, List.map_cons, List.map_nil]
+      exact List.nodup_append.mpr ⟨ok.nodup, by simp, by
+        intro a ha b hb; simp [Field.name] at hb; subst hb; intro he; exact getField_none hnone (he ▸ ha)⟩
+    · intro c hc
+      rcases List.mem_append.mp hc with hc | hc
+      · exact ok.wff c hc
+      · simp at hc; subst hc; simp [WFF, names, WFF.WFFs]
+
 /-! ### the world -/
 
 /-- every dataset of the world is a rectangular, well-formed table -/
@@ -374,6 +404,7 @@ theorem WOK.set {w : W} (ok : WOK w) {d : Nat} {x : DS} {h' : Heap} (e : HeapExt
 as the dataset (the code checks only the array itself) -/
 def Valid (w : W) : Op → Prop
   | .add d _ _ val _ _ => ∀ o x, w.resolve val = .ok o → w.getDs d = .ok x → Good w.heap x.numObs o
+  | .addColl _ path _ => path.length = 1
   | _ => True
 
 theorem mergeLoop_ok (us : Units) (w : W) (okw : WOK w) (di : Nat) : ∀ (es : List Nat) (h : Heap) (d : DS) (h' : Heap) (d' : DS),
@@ -435,6 +466,24 @@ theorem step_ok (w : W) (op : Op) (w' : W) (out : Out) (hs : step w op = .ok (w'
         exact ⟨WOK.set ok (HeapExt.refl _) ⟨r', k'⟩, HeapExt.refl _⟩
     · simp at hs
     · simp at hs
+  | addColl d path l =>
+    simp only [step] at hs
+    split at hs
+    · simp at hs
+    · rename_i x hx
+      split at hs
+      · simp at hs
+      · rename_i x' hadd
+        simp only [Except.ok.injEq, Prod.mk.injEq] at hs
+        obtain ⟨rfl, _⟩ := hs
+        obtain ⟨r, kk⟩ := ok d x hx
+        have hp : ∃ nm, path = [nm] := by
+          have : path.length = 1 := hv
+          match path, this with
+          | [nm], _ => exact ⟨nm, rfl⟩
+        obtain ⟨nm, rfl⟩ := hp
+        obtain ⟨r', k', _⟩ := dsAddColl_ok w.heap x nm l x' hadd r kk
+        exact ⟨WOK.set ok (HeapExt.refl _) ⟨r', k'⟩, HeapExt.refl _⟩
   | del d path =>
     simp only [step] at hs
     split at hs
